@@ -147,6 +147,11 @@ def run(ctx):
     from sa.engine import SubCtx
     from rules import c03, c08, c02
     c03.r2(SubCtx(ctx, {'R2': 'R6'}))
+    # ... and the boundary between the two sources moves only together with the anchor: the height
+    # advances on completion, in the ingestion loop only, and the pop that follows must succeed
+    # (shared with C03.R1 / C03.R3) — otherwise the finished block is served from both sources
+    c03.r1(SubCtx(ctx, {'R1': 'R6'}))
+    c03.r3(SubCtx(ctx, {'R3': 'R6'}))
     c08.r6(SubCtx(ctx, {'R6': 'R6'}))
     # the chain height the range is checked against is the best chain's (= C02.R6)
     c02.r5_r6(SubCtx(ctx, {'R6': 'R3'}))
